@@ -361,12 +361,66 @@ class ClosedWorld:
     self.issue(node, 'IndexError', 'subscript %s may raise IndexError/KeyError' % norm_text(node))
     return 'unknown'
 
+  # comprehensions over typed iterables: the target is scoped to the comprehension
+  def _comp(self, node, elts):
+    saved = dict(self.env)
+    for g in node.generators:
+      it = self.expr(g.iter)
+      self.assign(g.target, self._elem(it, g.iter), node)
+      for c in g.ifs:
+        self.expr(c)
+    ts = [self.expr(e) for e in elts]
+    self.env = saved
+    return ts
+
+  def x_GeneratorExp(self, node):
+    return ('list', self._comp(node, [node.elt])[0])
+
+  def x_ListComp(self, node):
+    return ('list', self._comp(node, [node.elt])[0])
+
+  def x_SetComp(self, node):
+    return ('list', self._comp(node, [node.elt])[0])
+
+  _NUM = (BOUNDED, UNBOUNDED, 'float', 'bool')
+
+  def _builtin(self, d, node, argt):
+    """Total (or precisely partial) builtins on typed values; None if not handled."""
+    kw = {k.arg: k.value for k in node.keywords}
+    if d in ('max', 'min'):
+      if len(argt) >= 2 and not (set(kw) - {'default'}) and all(t in self._NUM for t in argt):
+        return 'float' if 'float' in argt else (UNBOUNDED if UNBOUNDED in argt else BOUNDED)
+      if len(argt) == 1 and isinstance(argt[0], tuple) and argt[0][0] == 'list' and argt[0][1] in self._NUM and not (set(kw) - {'default'}):
+        if 'default' not in kw:
+          self.issue(node, 'ValueError', '%s() of a possibly empty iterable without default' % d)
+          return argt[0][1]
+        dt = self.expr(kw['default'])
+        if dt not in self._NUM:
+          self.issue(node, 'TypeError', '%s() default of type %s' % (d, dt))
+        return 'float' if 'float' in (argt[0][1], dt) else argt[0][1]
+      return None
+    if d == 'len' and len(argt) == 1 and isinstance(argt[0], tuple) and argt[0][0] in ('list', 'rep', 'tuple'):
+      return BOUNDED
+    if d == 'abs' and len(argt) == 1 and argt[0] in self._NUM:
+      return argt[0] if argt[0] != 'bool' else BOUNDED
+    if d in ('float', 'bool') and len(argt) == 1 and argt[0] in self._NUM:
+      return d
+    if d == 'list' and len(argt) == 1 and isinstance(argt[0], tuple) and argt[0][0] in ('list', 'rep'):
+      return ('list', self._elem(argt[0], node))
+    if d in ('any', 'all') and len(argt) == 1 and isinstance(argt[0], tuple) and argt[0][0] == 'list':
+      return 'bool'
+    return None
+
   def x_Call(self, node):
     f = node.func
     d = dotted(f)
     argt = [self.expr(a) for a in node.args if not isinstance(a, ast.Starred)]
     for k in node.keywords:
       self.expr(k.value)
+    if isinstance(f, ast.Name) and d not in self.call_types and d not in self.env:
+      bt_ = self._builtin(d, node, argt)
+      if bt_ is not None:
+        return bt_
     if isinstance(f, ast.Attribute):
       bt = self.expr(f.value)
       if isinstance(bt, tuple) and bt[0] == 'rep' and f.attr == 'add' and not node.args and not node.keywords:
